@@ -205,3 +205,40 @@ func VerifParse() {
 	}
 	verifCover("parse.accepted")
 }
+
+// VerifParseDest: parsing is independent of what the destination held before (C06): the same
+// string is parsed into two arbitrary destinations under the same (symbolic, small) context.
+func VerifParseDest() {
+	c := verifCtx()
+	n := int(verifParamInt("n"))
+	s := verifNondetString("s", n, '+', 'y')
+	for i := 0; i < n; i++ {
+		b := s[i]
+		in := verifOr(verifIsDigit(b), verifOr(b == '+', verifOr(b == '-', b == '.')))
+		const letters = "einfatysEINFATYS"
+		for k := 0; k < len(letters); k++ {
+			in = verifOr(in, b == letters[k])
+		}
+		verifAssume(in)
+	}
+	var d1, d2 Decimal
+	verifHavoc("d1", &d1)
+	verifHavoc("d2", &d2)
+	// (previous exponents within the window: a stale exponent near +-100000 that leaks into the
+	// result would make the rounding step enumerate ~10^5 shift amounts)
+	W := verifParamInt("W")
+	verifAssume(int64(d1.Exponent) >= -W && int64(d1.Exponent) <= W && int64(d2.Exponent) >= -W && int64(d2.Exponent) <= W)
+	verifFreezeContext(c, "context")
+	r1, res1, err1 := c.SetString(&d1, s)
+	r2, res2, err2 := c.SetString(&d2, s)
+	verifCheckFrozen()
+	verifAssert((err1 != nil) == (err2 != nil), "C06.parse.err")
+	verifAssert(res1 == res2, "C06.parse.flags")
+	verifAssert((r1 == nil) == (r2 == nil), "C06.parse.ret")
+	if r1 != nil && r2 != nil {
+		verifAssert(verifSameObservable(r1, r2), "C06.parse.value")
+		if r1.Form == r2.Form && (r1.Form == NaN || r1.Form == NaNSignaling || r1.Form == Infinite) {
+			verifCover("parsedest.special")
+		}
+	}
+}
